@@ -349,6 +349,7 @@ def stmts_formula(stmts, env, softs=None, guards=()):
                 acc.append(z3.Implies(g, stmts_formula(s[3], env.child(itvars=iv), softs, guards + ((g,) if lst.get("size_used") else ()))))
         elif k == "dist":
             terms = []
+            zero = []
             for item, w in s[2]:
                 if isinstance(w, list):
                     wt, ww, ws = env.leaf_term(_leafpath(w, env))
@@ -356,13 +357,13 @@ def stmts_formula(stmts, env, softs=None, guards=()):
                     wnz = wv.as_long() != 0
                 else:
                     wnz = w != 0
-                if not wnz:
-                    continue
                 if item[0] == "rng":
-                    terms.append(z3.And(truth([">=", s[1], item[1]], env), truth(["<=", s[1], item[2]], env)))
+                    m = z3.And(truth([">=", s[1], item[1]], env), truth(["<=", s[1], item[2]], env))
                 else:
-                    terms.append(truth(["==", s[1], item], env))
-            acc.append(z3.Or(*terms) if terms else z3.BoolVal(False))
+                    m = truth(["==", s[1], item], env)
+                (terms if wnz else zero).append(m)
+            # listed with a non-zero weight, and not named by any zero-weight entry ("zero weight means never")
+            acc.append(z3.And(z3.Or(*terms) if terms else z3.BoolVal(False), z3.Not(z3.Or(*zero)) if zero else z3.BoolVal(True)))
         elif k in ("order", "raise"):
             pass
         else:
